@@ -28,8 +28,13 @@ def equal_owner_pass(ctx):
             def __hash__(self):
                 return hash(self.name)
 
+        falsy = k % 2 == 1
+
         class Item(E.EObject, metaclass=E.MetaEClass):
             label = E.EAttribute(eType=E.EString)
+
+            def __len__(self):      # (every other case: an item that Python takes for false, as an empty container is)
+                return 0 if falsy else 1
         Box.items.eType = Item
         b1, b2, x = Box('a'), Box('a'), Item()
 
